@@ -91,11 +91,11 @@ def classify_exc(ex):
     return 'reject' if kit.exc_class(ex) == 'documented' else 'error:' + type(ex).__name__
 
 
-def observe(schema, cls, mv, edits, expect_tree=None):
+def observe(schema, cls, mv, edits, expect_tree=None, with_views=True):
     """Run the implementation on one (class, value): returns the observation record. Edits are positions in
     the expected tree: they are applied only when the wire projects onto that tree (a wrong base encoding is
     reported on its own)."""
-    obs = {'alen': 0, 'wlen': 0, 'tree': [], 'proj': '', 'back': [], 'eq': False, 'edits': [], 'enc': ''}
+    obs = {'alen': 0, 'wlen': 0, 'tree': [], 'proj': '', 'back': [], 'eq': False, 'edits': [], 'enc': '', 'views': []}
     inst = kit.to_python(schema, cls, mv)
     try:
         obs['alen'] = inst.encoded_length()
@@ -123,6 +123,8 @@ def observe(schema, cls, mv, edits, expect_tree=None):
         obs['dec'] = type(ex).__name__
     if expect_tree is not None and obs['tree'] != expect_tree:
         return obs
+    if obs['back'] == mv and obs['eq'] and with_views:
+        obs['views'] = views(schema, cls, mv, wire, back)
     for e in edits:
         w2 = stl.write_tlv(kit.apply_edit(conc, e))
         o = dict(e)
@@ -135,6 +137,142 @@ def observe(schema, cls, mv, edits, expect_tree=None):
             o['got'] = classify_exc(ex)
         obs['edits'].append(o)
     return obs
+
+
+# ------------------------------------------------------------------ other representations and views of the same value
+
+def _is_simple(comps):
+    return bool(comps) and all(c['t'] == [8] and c['runs'] and all(97 <= r['v'] <= 122 for r in c['runs']) for c in comps)
+
+
+def alt_field(d, fv, fobj, k):
+    """the same abstract value in ANOTHER legal Python representation than kit.field_to_python gives (k varies it):
+    bytes -> bytearray / memoryview; text -> utf-8 bytes; name -> URI str (plain lower-case generic components),
+    encoded Name (type 7 fields), list of memoryview / bytearray components; uint -> Enum / Flag member."""
+    from ndn.encoding import tlv_model as tm
+    kind = d['kind']
+    if kind == 'repeated':
+        return [alt_field(d['elem'][0], x, fobj.element_type, k + i) for i, x in enumerate(fv['items'])]
+    if kind == 'map':
+        return {kit.field_to_python(d['elem'][0], it['key'], fobj.key_type): alt_field(d['elem'][1], it['val'], fobj.value_type, k + i)
+                for i, it in enumerate(fv['items'])}
+    if fv['k'] == 'none':
+        return None
+    if kind == 'bytes':
+        b = kit.bytes_of_runs(fv['runs'])
+        return bytearray(b) if k % 2 else memoryview(b'..' + b)[2:]
+    if kind == 'text':
+        t = kit.text_of_runs(fv['runs'])
+        return t.encode('utf-8') if k % 2 else t
+    if kind == 'name':
+        comps = [kit.comp_bytes(c) for c in fv['comps']]
+        if kit.unlimbs(d['t']) == 7:
+            if _is_simple(fv['comps']) and k % 3 == 0:
+                return '/' + '/'.join(kit.bytes_of_runs(c['runs']).decode() for c in fv['comps'])
+            if k % 3 == 1:
+                return stl.write_tlv([(7, [(kit.unlimbs(c['t']), kit.bytes_of_runs(c['runs'])) for c in fv['comps']])])
+        return [memoryview(c) if (k + i) % 2 else bytearray(c) for i, c in enumerate(comps)]
+    if kind == 'uint':
+        n = kit.unlimbs(fv['n'])
+        g = fobj.element_type if isinstance(fobj, tm.RepeatedField) else fobj
+        if isinstance(g, tm.UintField) and g.val_base_type is not int:
+            try:
+                return g.val_base_type(n)
+            except ValueError:
+                return n
+        return n
+    if kind == 'model':
+        return to_python_alt(d['sub'], fobj.model_type, fv['v'], k + 1)
+    return kit.field_to_python(d, fv, fobj)
+
+
+def to_python_alt(schema, cls, mv, k=0):
+    inst = cls()
+    for i, (d, fv, f) in enumerate(zip(schema, mv, kit.model_fields(cls))):
+        val = alt_field(d, fv, f, k + i)
+        if d['kind'] in ('repeated', 'map') or val is not None:
+            setattr(inst, f.name, val)
+        elif f.default is None:
+            f.__set__(inst, None)
+    return inst
+
+
+def asdict_defined(schema, mv):
+    """TlvModel.asdict is only usable when no bytes / text / sub-model field it walks through is None (KF: it raises
+    otherwise)"""
+    for d, fv in zip(schema, mv):
+        k = d['kind']
+        if k in ('bytes', 'text', 'model') and fv['k'] == 'none':
+            return False
+        if k == 'model' and not asdict_defined(d['sub'], fv['v']):
+            return False
+        if k == 'repeated' and d['elem'][0]['kind'] == 'model' and not all(asdict_defined(d['elem'][0]['sub'], x['v']) for x in fv['items']):
+            return False
+        if k == 'map' and d['elem'][1]['kind'] == 'model' and not all(asdict_defined(d['elem'][1]['sub'], it['val']['v']) for it in fv['items']):
+            return False
+    return True
+
+
+def plain_to_abstract(d, val):
+    """value as found in asdict() / aslist() / attribute reads -> abstract field value"""
+    import enum
+    kind = d['kind']
+    if kind == 'repeated':
+        return {'k': 'list', 'items': [plain_to_abstract(d['elem'][0], x) for x in (val or [])]}
+    if kind == 'map':
+        return {'k': 'map', 'items': [{'key': plain_to_abstract(d['elem'][0], a), 'val': plain_to_abstract(d['elem'][1], b)}
+                                      for a, b in (val or {}).items()]}
+    if val is None:
+        return kit.NONE
+    if kind == 'uint':
+        return {'k': 'uint', 'n': kit.limbs(int(val.value if isinstance(val, enum.Enum) else val))}
+    if kind == 'bool':
+        return {'k': 'bool'} if val else kit.NONE
+    if kind == 'bytes':
+        return {'k': 'bytes', 'runs': kit.runs_of_bytes(val)}
+    if kind == 'text':
+        return {'k': 'text', 'runs': kit.runs_of_text(val)} if isinstance(val, str) else {'k': 'bytes', 'runs': kit.runs_of_bytes(val)}
+    if kind == 'name':
+        return {'k': 'name', 'comps': [kit.comp_abstract(c) for c in val]} if not isinstance(val, str) else {'k': 'text', 'runs': kit.runs_of_text(val)}
+    if kind == 'model':
+        if isinstance(val, dict):
+            return {'k': 'model', 'v': [plain_to_abstract(x, val.get(x['name'])) for x in d['sub']]}
+        return {'k': 'model', 'v': kit.to_abstract(d['sub'], val)}
+    raise ValueError(kind)
+
+
+def views(schema, cls, mv, wire, back):
+    """Everything else a user does with the same value must agree with the judged encode / parse:
+       alt-repr   the value assigned in other legal Python representations encodes to the same wire
+       reencode   the PARSED model (memoryview-valued fields) encodes to the same wire
+       container  parse of a bytearray / read-only memoryview gives the same value
+       attr       reading each field through its descriptor (enum conversion of UintField) gives the stored value
+       asdict / repr   do not raise; the dict holds the same values"""
+    tags = []
+
+    def attempt(tag, fn):
+        try:
+            r = fn()
+            if r is not True:
+                tags.append('%s/differs' % tag)
+        except Exception as ex:  # noqa
+            tags.append('%s/raises:%s' % (tag, type(ex).__name__))
+    for k in (0, 1, 2):
+        attempt('alt-repr', lambda: bytes(to_python_alt(schema, cls, mv, k).encode()) == wire)
+    attempt('alt-repr-announced', lambda: to_python_alt(schema, cls, mv, 1).encoded_length() == len(wire))
+    attempt('reencode', lambda: bytes(back.encode()) == wire)
+    attempt('container:bytearray', lambda: kit.to_abstract(schema, cls.parse(bytearray(wire))) == mv)
+    attempt('container:memoryview', lambda: kit.to_abstract(schema, cls.parse(memoryview(b'\x00' + wire)[1:])) == mv)
+    attempt('attr', lambda: [plain_to_abstract(d, getattr(back, f.name)) for d, f in zip(schema, kit.model_fields(cls))] == mv)
+    from ndn.encoding import tlv_model as tm
+    attempt('attr-enum-type', lambda: all(getattr(back, f.name) is None or isinstance(getattr(back, f.name), f.val_base_type)
+                                          for f in kit.model_fields(cls) if isinstance(f, tm.UintField)))
+    attempt('repr', lambda: isinstance(repr(back), str))
+    if asdict_defined(schema, mv):
+        attempt('asdict', lambda: [plain_to_abstract(d, back.asdict().get(d['name'])) for d in schema] == mv)
+    else:
+        attempt('asdict-with-unset-optional-field', lambda: [plain_to_abstract(d, back.asdict().get(d['name'])) for d in schema] == mv)
+    return tags
 
 
 # ------------------------------------------------------------------ stage B comparison
@@ -166,6 +304,8 @@ def compare_vec(ctx, cname, schema, cls, vec, decl=None):
     elif not obs['eq']:
         bad.append(('eq', 'parse(encode(v)) == v is False although all fields project equal'))
     else:
+        for tag in obs['views']:
+            bad.append(('view/' + tag, 'another representation / view of the same value disagrees: %s' % tag))
         for e, o in zip(edits, obs['edits']):
             if o['got'] != e['expect']:
                 c = edit_context(schema, vec['tree'], e)
@@ -173,7 +313,7 @@ def compare_vec(ctx, cname, schema, cls, vec, decl=None):
                             'edit %s at path %s pos %d: spec %s, implementation %s' % (e['kind'], e['path'], e['pos'], e['expect'], o['got'])))
                 rep = dict(rep, edits=[e])
     for tag, what in bad:
-        sig = 'C08/%s' % tag if tag.startswith('edit/') else 'C08/%s/%s' % (tag, feat)
+        sig = 'C08/%s' % tag if tag.startswith(('edit/', 'view/')) else 'C08/%s/%s' % (tag, feat)
         ctx.violation(sig, '%s: %s [value features: %s]' % (cname, what, feat), rep)
     return obs, bool(bad)
 
@@ -404,12 +544,12 @@ def sanitize(cls, schema, mv):
 
 def record_for(gen, rid, cname, cls, schema, decl, nedits, enum=None):
     mv = sanitize(cls, schema, [gen.value(d, 0, enum) for d in schema])
-    obs0 = observe(schema, cls, mv, [])
+    obs0 = observe(schema, cls, mv, [], with_views=False)
     edits = gen.edits(schema, obs0['tree'], nedits) if obs0['tree'] else []
-    obs = observe(schema, cls, mv, edits) if edits else obs0
+    obs = observe(schema, cls, mv, edits)
     rec = {'id': rid, 'cname': cname, 'schema': schema, 'decl': decl or {'cname': '', 'entries': []}, 'v': mv,
            'alen': obs['alen'], 'wlen': obs['wlen'], 'tree': obs['tree'], 'back': obs['back'], 'eq': obs['eq'],
-           'enc': obs['enc'], 'proj': obs['proj'], 'dec': obs.get('dec', ''),
+           'enc': obs['enc'], 'proj': obs['proj'], 'dec': obs.get('dec', ''), 'views': obs['views'],
            'edits': [{k: o[k] for k in ('path', 'op', 'pos', 'src', 'elem', 'kind', 'got', 'gv')} for o in obs['edits']]}
     return rec
 
@@ -437,6 +577,8 @@ def report_c(ctx, recs, verdicts):
         if any(tag in ('ILLEGAL-INPUT', 'SPEC-ROUNDTRIP') for tag in tags):
             broken.append('judge: %s on record %s (%s)' % (tags, rid, rec['cname']))
             continue
+        vtags = [t for t in tags if t.startswith('view/')]
+        tags = [t for t in tags if not t.startswith('view/')]
         base = [t for t in tags if not t.startswith('edit/')]
         if rec['enc'] and 'alen' not in base:
             base.append('enc')
@@ -453,6 +595,9 @@ def report_c(ctx, recs, verdicts):
             ctx.violation('C08/%s/%s' % (name, feat), '%s: %s (failed checks: %s) [value features: %s]' % (
                 rec['cname'], name, ','.join(base), feat), {'kind': 'record', 'rec': dict(rec, edits=[])})
             continue
+        for tag in vtags:
+            ctx.violation('C08/%s' % tag, '%s: another representation / view of the same value disagrees: %s' % (rec['cname'], tag),
+                          {'kind': 'record', 'rec': dict(rec, edits=[])})
         for tag in tags:
             _, kind, want, got, j = tag.split('/')
             e = rec['edits'][int(j) - 1]
@@ -636,7 +781,8 @@ def replay(ctx, path):
     else:
         print(json.dumps(obj, indent=1)[:3000])
         return 0
-    rec = {k: v for k, v in rec.items() if k in ('id', 'cname', 'schema', 'decl', 'v', 'alen', 'wlen', 'tree', 'back', 'eq', 'edits')}
+    rec = {k: v for k, v in rec.items() if k in ('id', 'cname', 'schema', 'decl', 'v', 'alen', 'wlen', 'tree', 'back', 'eq', 'edits', 'views')}
+    rec.setdefault('views', [])
     verdicts = judge(ctx, [rec], 'c08-replay')
     print('judge:', verdicts.get(1, 'conforms'))
     return 1 if verdicts else 0
